@@ -36,10 +36,13 @@ import (
 	"github.com/bluenviron/gohlslib/v2"
 	"github.com/bluenviron/gortsplib/v5"
 	"github.com/bluenviron/gortsplib/v5/pkg/auth"
+	"github.com/bluenviron/gortsplib/v5/pkg/description"
 
 	"github.com/bluenviron/mediamtx/internal/conf"
+	"github.com/bluenviron/mediamtx/internal/defs"
 	"github.com/bluenviron/mediamtx/internal/externalcmd"
 	"github.com/bluenviron/mediamtx/internal/logger"
+	"github.com/bluenviron/mediamtx/internal/test"
 	"github.com/bluenviron/mediamtx/internal/verifutil"
 )
 
@@ -183,6 +186,8 @@ moqServerCert: %[2]s
 %[9]spaths:
   all_others:
   cam1:
+  live:
+    record: yes
   rec:
 %[6]s`, verifC13KeyA, verifC13CertA, verifC13Dir, enc, extra, rda, http, media, defRDA, recDir)
 	fp := filepath.Join(verifC13Dir, "conf.yml")
@@ -450,6 +455,27 @@ func verifC13Flip(c *conf.Conf, name string) bool {
 			return false
 		}
 		return c.RemovePath(from) == nil && c.AddPath(to, op) == nil
+	case "PathsRecPath", "PathsRecSeg":
+		// hot-reloadable recording parameters of the path that is recording
+		cur := c.Paths["live"]
+		if cur == nil {
+			return false
+		}
+		rp, sd := cur.RecordPath, "1h0m0s"
+		if name == "PathsRecPath" {
+			if strings.Contains(rp, "/rec2/") {
+				rp = strings.Replace(rp, "/rec2/", "/rec/", 1)
+			} else {
+				rp = strings.Replace(rp, "/rec/", "/rec2/", 1)
+			}
+		}
+		if (name == "PathsRecSeg") != (cur.RecordSegmentDuration == conf.Duration(30*time.Minute)) {
+			sd = "30m0s"
+		}
+		var op conf.OptionalPath
+		js, _ := json.Marshal(map[string]any{"record": true, "recordPath": rp, "recordSegmentDuration": sd})
+		json.Unmarshal(js, &op) //nolint:errcheck
+		return c.ReplacePath("live", &op) == nil
 	case "PathsEdit":
 		// edit one existing entry (not hot-reloadable: the path is recreated by the path manager)
 		name := "cam1"
@@ -651,12 +677,53 @@ func verifC13FlipNames() []string {
 		}
 	}
 	sort.Strings(out)
-	out = append(out, "PathDefaults", "Paths+", "PathsRDA", "PathsRDA2", "PathsRename", "PathsEdit")
+	out = append(out, "PathDefaults", "Paths+", "PathsRDA", "PathsRDA2", "PathsRename", "PathsEdit", "PathsRecPath", "PathsRecSeg")
 	verifC13FlipList = out
 	return out
 }
 
 // ---- ops ----
+
+type verifC13Pub struct{}
+
+func (*verifC13Pub) Close()                           {}
+func (*verifC13Pub) Log(logger.Level, string, ...any) {}
+func (*verifC13Pub) APISourceDescribe() *defs.APIPathSource {
+	return &defs.APIPathSource{Type: "rtspSession", ID: ""}
+}
+
+// verifC13Recorders: for every path with a running recorder, the recorder's parameters against the path's
+// entry in the configuration that was just applied (not against pa.conf, which is only the path's own idea)
+func verifC13Recorders(p *Core, nc *conf.Conf) []string {
+	pm := p.pathManager
+	pm.APIPathsList() //nolint:errcheck // barrier with pathManager.run
+	var bad []string
+	for name, pa := range pm.paths {
+		pa.APIPathsGet(pathAPIPathsGetReq{}) //nolint:errcheck // barrier with path.run
+		rec := pa.recorder
+		pc := nc.Paths[pa.confName]
+		if rec == nil || pc == nil {
+			continue
+		}
+		if rec.PathFormat != pc.RecordPath {
+			bad = append(bad, "path."+name+".recorder.PathFormat")
+		}
+		if rec.Format != pc.RecordFormat {
+			bad = append(bad, "path."+name+".recorder.Format")
+		}
+		if rec.PartDuration != time.Duration(pc.RecordPartDuration) {
+			bad = append(bad, "path."+name+".recorder.PartDuration")
+		}
+		if rec.MaxPartSize != pc.RecordMaxPartSize {
+			bad = append(bad, "path."+name+".recorder.MaxPartSize")
+		}
+		if rec.SegmentDuration != time.Duration(pc.RecordSegmentDuration) {
+			bad = append(bad, "path."+name+".recorder.SegmentDuration")
+		}
+	}
+	sort.Strings(bad)
+	return bad
+}
 
 func verifC13PathNames(pm *pathManager) []string {
 	l, err := pm.APIPathsList()
@@ -824,6 +891,13 @@ func verifC13Exec(op string) string {
 		}
 		verifC13P = p
 		verifC13Observe = "stale=- badref=-"
+		// a live stream on the recording path `live`: its recorder is a running per-path service whose
+		// parameters (recordPath, recordFormat, part/segment durations, max part size) hot-reload
+		p.pathManager.AddPublisher(defs.PathAddPublisherReq{ //nolint:errcheck
+			Author:        &verifC13Pub{},
+			Desc:          &description.Session{Medias: []*description.Media{test.UniqueMediaH264()}},
+			AccessRequest: defs.PathAccessRequest{Name: "live", Publish: true, SkipAuth: true},
+		})
 		return "run=" + verifC13Join(verifC13Running(p))
 
 	case "reload", "reloadf", "api", "burst":
@@ -913,6 +987,19 @@ func verifC13Exec(op string) string {
 				break
 			}
 			time.Sleep(10 * time.Millisecond) // recordCleaner applies its in-place reload asynchronously
+		}
+		// per-path services: a recorder that is running must run with the values of the NEW configuration
+		// of its path (the path reloads asynchronously: poll briefly)
+		if p.pathManager != nil {
+			var bad []string
+			for try := 0; try < 30; try++ {
+				bad = verifC13Recorders(p, nc)
+				if len(bad) == 0 {
+					break
+				}
+				time.Sleep(10 * time.Millisecond)
+			}
+			stale = append(stale, bad...)
 		}
 		// what the running path manager serves: every path a cold start creates (the static paths of
 		// the new configuration, with their configuration name) must exist in it.  It may hold more: a
@@ -1021,7 +1108,7 @@ func verifC13Gen(r *verifutil.Rand, i int, thorough bool) []string {
 		for len(ms) < k {
 			m := names[r.Intn(len(names))]
 			if r.Chance(1, 6) {
-				m = []string{"Paths+", "PathsRDA", "PathsRDA2", "PathsRename", "PathsEdit", "AuthInternalUsers", "RTSPUDPReadBufferSize"}[r.Intn(7)]
+				m = []string{"Paths+", "PathsRDA", "PathsRDA2", "PathsRename", "PathsEdit", "PathsRecPath", "PathsRecSeg", "AuthInternalUsers", "RTSPUDPReadBufferSize"}[r.Intn(9)]
 			}
 			if !verifC13HasStr(ms, m) {
 				ms = append(ms, m)
